@@ -162,7 +162,10 @@ func (c *C11Case) events(second bool) []ev.Event {
 }
 
 var c11Invalid = [][]byte{{0x80}, {0xc0, 0x80}, {0xe4, 0xb8}, {0xed, 0xa0, 0x80}, {0xf4, 0x90, 0x80, 0x80}, {0xff}, {0xf0, 0x9f, 0x98}}
-var c11Runes = []rune{'a', 'z', ' ', 0xe9, 0x416, 0x4e2d, 0x20ac, 0x1f600, 0x10ffff, 0x7f, 0x80, 0x7ff, 0x800, 0xffff, 0x10000}
+var c11Runes = []rune{'a', 'z', ' ', 0xe9, 0x416, 0x4e2d, 0x20ac, 0x1f600, 0x10ffff, 0x7f, 0x80, 0x7ff, 0x800, 0xffff, 0x10000,
+	// U+FFFD correctly encoded is a valid character (a validity test that decodes and looks for RuneError must
+	// also look at the width); the last character before and the first after the surrogate range
+	0xfffd, 0xfffc, 0xfffe, 0xd7ff, 0xe000}
 
 func c11Text(t *rapid.T, label string, max int, invalidOneIn int) []byte {
 	n := rapid.IntRange(0, max).Draw(t, label+".n")
